@@ -233,3 +233,138 @@ Print Assumptions C06_pn2_no_impossible_stop.
                             stored in the table and reused on other paths); the oracle hunts for a wrong `disproven` on
                             the cyclic region of the solved graphs (positions where the attacker can only shuffle - the
                             only roots where the search meets repetitions) and has found none. *)
+
+(* ================================================================================================================================
+   12. (third wave, worker prove3-cong)  Block 4 WITHOUT `_partial`, and block 6 extended to runs with repetitions.
+   The hypothesis equal_congruent of block 4 (positions that Position.Equal identifies have the same history-free value) is false
+   for arbitrary records (Position.Equal does not compare reserves, tie-break flag or ply counter) but holds between the positions
+   of one game, PnCong3.cinv c b: C01's invariant pos_ok; at most 64 pieces in the game; reserve + pieces on the board = c for each
+   of the four reserves; black_wins_ties = b; 0 <= move, and move < 2 exactly when fewer than 2 pieces have left the reserves.
+   cinv is preserved by every accepted move and holds for every replay from tak.New with at most 64 pieces.
+   ================================================================================================================================ *)
+Require Import Refine Preserve1 Reach1 Alloc PnCong1 PnCong2 PnCong3 PnCong4 PnCong5 DfpnRep1.
+
+(* 4a. the invariant: preserved by Position.Move, established by tak.New *)
+Theorem C06_cinv_step : forall c b p m p', cinv c b p -> mv p m = Ok p' -> cinv c b p'.
+Proof. exact cinv_step. Qed.
+Print Assumptions C06_cinv_step.
+
+Theorem C06_reachable_cinv : forall sz bwt stones caps ms p, 3 <= sz <= 8 -> 2 * (stones + caps) <= 64 ->
+  replay (new_pos sz bwt stones caps) ms = Ok p -> cinv (stones, caps, stones, caps) bwt p.
+Proof. exact reachable_cinv. Qed.
+Print Assumptions C06_reachable_cinv.
+
+(* 4b. equal_congruent between the positions of one game (any attacker) *)
+Theorem C06_equal_congruent : forall c b aw n q p, cinv c b q -> cinv c b p -> pos_equal q p = true ->
+  wn position (succs gen_basis) (terminal aw) (attp aw) n q = wn position (succs gen_basis) (terminal aw) (attp aw) n p.
+Proof. exact equal_congruent_cinv. Qed.
+Print Assumptions C06_equal_congruent.
+
+(* 4b'. what makes it true: records that differ only in a ply counter of the same parity on the same side of the opening
+   (PnCong1.sim) are indistinguishable for Move, GameOver and AllMoves - any basis, no invariant *)
+Theorem C06_sim_wn : forall basis aw n q p, sim q p ->
+  wn position (succs basis) (terminal aw) (attp aw) n q = wn position (succs basis) (terminal aw) (attp aw) n p.
+Proof. exact sim_wn. Qed.
+Print Assumptions C06_sim_wn.
+
+(* 4c. truth under the repetition rule = attractor, for the positions of a game *)
+Theorem C06_truth_equiv_game : forall c b aw k p, cinv c b p ->
+  (Wb position pos_equal (succs gen_basis) (terminal aw) (attp aw) k [] p <->
+   wn position (succs gen_basis) (terminal aw) (attp aw) k p = true).
+Proof. exact truth_equiv_cinv. Qed.
+Print Assumptions C06_truth_equiv_game.
+
+(* 4d. the two verdicts of Prover.Prove (PnRun.pn_run) against the attractor, roots satisfying the invariant *)
+Theorem C06_pn_proven_rules : forall c b iters dfuel maxnodes preserve maxdepth (p : position) root st mv why,
+  cinv c b p ->
+  pn_run iters dfuel maxnodes preserve maxdepth p = (root, st, 1, mv, why) ->
+  exists k, Wb position pos_equal (succs gen_basis) (terminal (to_move_white p)) (attp (to_move_white p)) k [] p.
+Proof. exact pn_run_proven_rules. Qed.
+Print Assumptions C06_pn_proven_rules.
+
+Theorem C06_pn_disproven_attractor : forall c b iters dfuel maxnodes preserve maxdepth (p : position) root st mv why,
+  cinv c b p -> (0 <= maxdepth)%Z ->
+  pn_run iters dfuel maxnodes preserve maxdepth p = (root, st, 2, mv, why) ->
+  wn position (succs gen_basis) (terminal (to_move_white p)) (attp (to_move_white p)) (Z.to_nat (eff_maxdepth maxdepth)) p = false.
+Proof. exact pn_run_disproven_attractor. Qed.
+Print Assumptions C06_pn_disproven_attractor.
+
+(* 4e. the same for roots that are positions of real games: anything replayed from tak.New *)
+Theorem C06_pn_proven_rules_reachable :
+  forall sz bwt stones caps ms iters dfuel maxnodes preserve maxdepth (p : position) root st mv why,
+  3 <= sz <= 8 -> 2 * (stones + caps) <= 64 -> replay (new_pos sz bwt stones caps) ms = Ok p ->
+  pn_run iters dfuel maxnodes preserve maxdepth p = (root, st, 1, mv, why) ->
+  exists k, Wb position pos_equal (succs gen_basis) (terminal (to_move_white p)) (attp (to_move_white p)) k [] p.
+Proof. exact pn_run_proven_rules_reachable. Qed.
+Print Assumptions C06_pn_proven_rules_reachable.
+
+Theorem C06_pn_disproven_attractor_reachable :
+  forall sz bwt stones caps ms iters dfuel maxnodes preserve maxdepth (p : position) root st mv why,
+  3 <= sz <= 8 -> 2 * (stones + caps) <= 64 -> replay (new_pos sz bwt stones caps) ms = Ok p -> (0 <= maxdepth)%Z ->
+  pn_run iters dfuel maxnodes preserve maxdepth p = (root, st, 2, mv, why) ->
+  wn position (succs gen_basis) (terminal (to_move_white p)) (attp (to_move_white p)) (Z.to_nat (eff_maxdepth maxdepth)) p = false.
+Proof. exact pn_run_disproven_attractor_reachable. Qed.
+Print Assumptions C06_pn_disproven_attractor_reachable.
+
+(* the general-configuration forms over prove_pn (any pcfg) are PnCong4.pn_proven_rules_cinv / pn_disproven_attractor_cinv;
+   non-vacuity: PnCong4.ex_proven_rules, ex_disproven_attractor (the roots of PnRunFacts' examples are replays from tak.New). *)
+
+
+(* ===================== Block 6: DFPN `disproven` for runs WITH threefold-repetition events =====================
+   Full statement (still open, probably FALSE for a reused solver - see notes/prove3_cong_report.txt):
+       dfpn p = (Disproven, m) -> ~ Wins att [] p          for every run, whatever the counters say.
+   Proved, in addition to 6 (repetition counter 0): a run that took no bound from the transposition table (DFPNStats.Hits
+   unchanged - compared with the solver on every run like Repetition) reports `disproven` only where the attacker has no
+   forced win, WITH repetitions, for ANY contents of the table (so also for a reused solver, any earlier attacker).
+   The hypothesis on hashes is the depth-indexed no-collision (6c shows that it and the form used in 5/6 follow from
+   "equal hash implies Position.Equal" on positions of one game).  Together: the only runs whose `disproven` is not
+   covered have BOTH Repetition > 0 and Hits > 0 - the graph-history interaction proper.
+   MISSING for the full statement: bounds stored while an ancestor on the stack was still open are conditional on that
+   ancestor (DfpnRep1.CL); nothing in the solver invalidates them when the ancestor leaves the stack. *)
+Theorem C06_dfpn_disproven_sound_nohit_partial :
+  forall (basis : list N) (aw : bool) (Sp : position -> Prop),
+    (forall p m q, Sp p -> terminal aw p = None -> In m (all_moves p) -> dmv basis p m = Ok q -> Sp q) ->
+    (forall p, Sp p -> size p <= 8) ->
+    (forall p q, Sp p -> Sp q -> hash_of p = hash_of q ->
+       forall n, wn position (succs basis) (terminal aw) (attp aw) n p = wn position (succs basis) (terminal aw) (attp aw) n q) ->
+    (forall p, Sp p -> terminal aw p = None -> all_moves p <> []) ->
+    (forall p, Sp p -> terminal aw p = None -> solve p <> None -> attp aw p = false ->
+       exists q, In q (succs basis p) /\ terminal aw q = Some false) ->
+    forall lfuel dfuel entries g s e w,
+      Sp g -> prove basis aw lfuel dfuel entries g = (s, e, w) -> ds_hits (dst s) = 0 -> result_of aw g e = 2 ->
+      forall n, wn position (succs basis) (terminal aw) (attp aw) n g = false.
+Proof. exact dfpn_disproven_sound_nohit. Qed.
+Print Assumptions C06_dfpn_disproven_sound_nohit_partial.
+
+(* 6b. the same for Prove() on a solver in any state (table and killers from earlier calls; the caller resets the stack) *)
+Theorem C06_dfpn_disproven_sound_nohit_from_partial :
+  forall (basis : list N) (aw : bool) (Sp : position -> Prop),
+    (forall p m q, Sp p -> terminal aw p = None -> In m (all_moves p) -> dmv basis p m = Ok q -> Sp q) ->
+    (forall p, Sp p -> size p <= 8) ->
+    (forall p q, Sp p -> Sp q -> hash_of p = hash_of q ->
+       forall n, wn position (succs basis) (terminal aw) (attp aw) n p = wn position (succs basis) (terminal aw) (attp aw) n q) ->
+    (forall p, Sp p -> terminal aw p = None -> all_moves p <> []) ->
+    (forall p, Sp p -> terminal aw p = None -> solve p <> None -> attp aw p = false ->
+       exists q, In q (succs basis p) /\ terminal aw q = Some false) ->
+    forall lfuel dfuel s0 g s e w,
+      Sp g -> dstack s0 = [] -> prove_from basis aw lfuel dfuel s0 g = (s, e, w) ->
+      ds_hits (dst s) = ds_hits (dst s0) -> result_of aw g e = 2 ->
+      forall n, wn position (succs basis) (terminal aw) (attp aw) n g = false.
+Proof. exact dfpn_disproven_sound_nohit_from. Qed.
+Print Assumptions C06_dfpn_disproven_sound_nohit_from_partial.
+
+(* 6c. NoCollisionOn Sp (both forms) from "equal hash implies Position.Equal" for positions of one game *)
+Theorem C06_nocollision_from_equal :
+  forall c b aw (Sp : position -> Prop),
+  (forall p, Sp p -> cinv c b p) ->
+  (forall p q, Sp p -> Sp q -> hash_of p = hash_of q -> pos_equal p q = true) ->
+  (forall p q, Sp p -> Sp q -> hash_of p = hash_of q ->
+     (W gen_basis aw p <-> W gen_basis aw q) /\ to_move_white p = to_move_white q /\ terminal aw p = terminal aw q) /\
+  (forall p q, Sp p -> Sp q -> hash_of p = hash_of q ->
+     forall n, wn position (succs gen_basis) (terminal aw) (attp aw) n p = wn position (succs gen_basis) (terminal aw) (attp aw) n q).
+Proof. exact nocollision_from_equal. Qed.
+Print Assumptions C06_nocollision_from_equal.
+
+(* non-vacuity: DfpnRep2.dfpn_disproven_sound_nohit_applies (the enumerated one-stone game) and, with the position sets by
+   representatives of DfpnRep3, DfpnRep4.dfpn_proven_sound_cyclic / dfpn_disproven_sound_nohit_cyclic: a game with slide
+   cycles (3x3, stone + capstone per side, 657 classes up to the ply counter), actual runs of the model. *)
